@@ -343,7 +343,32 @@ static SemObj *sem_of_handle(sem_t *h, Proc **pp = nullptr) {
   Proc &P = proc_of(t->proc);
   if (pp) *pp = &P;
   for (auto &e : P.sems) if (e.second.handle == h) return e.first;
+  auto a = k->anon_sems.find(h);            // unnamed semaphore (sem_init)
+  if (a != k->anon_sems.end()) return a->second;
   return nullptr;
+}
+// unnamed semaphores: not used by the library today (a condition variable or queue built on them is a legitimate change)
+int simk_sem_init(sem_t *h, int pshared, unsigned value) {
+  yield_point();
+  if (!cur()) return 0;
+  (void)pshared;
+  if (value > (unsigned)SEM_VALUE_MAX) { errno = EINVAL; return -1; }
+  SemObj *o = new SemObj();
+  o->id = (int)k->sem_objs.size(); o->name = "(unnamed)"; o->linked = false; o->value = (int)value; o->init_value = (int)value; o->vc.clear();
+  k->sem_objs.push_back(o);
+  k->anon_sems[h] = o; k->anon_live++;
+  ev("sem_init", o->id, (int64_t)value);
+  return 0;
+}
+int simk_sem_destroy(sem_t *h) {
+  yield_point();
+  if (!cur()) return 0;
+  auto a = k->anon_sems.find(h);
+  if (a == k->anon_sems.end()) { errno = EINVAL; k->bad_sem_ops++; return -1; }
+  for (int i = 0; i < ntasks(); i++) { Task *w = task(i); if (w->state == T_BLOCKED && w->bkind == B_SEM && w->bobj == a->second->id) violate("sync_object_misuse", cur()->api ? cur()->api : "", "sem_destroy of an unnamed semaphore another task is blocked on"); }
+  ev("sem_destroy", a->second->id);
+  k->anon_sems.erase(a); k->anon_live--;
+  return 0;
 }
 int simk_sem_close(sem_t *h) {
   sc_enter(SC_SEM_CLOSE);
